@@ -52,6 +52,15 @@ func Boundary() Spec {
 		fix(CreateBatch(A, "C01-001", date(2022, 1, 1), date(2023, 1, 1), true, &basetypes.OriginTx{Id: "serial-1", Source: "verra"}, Iss(C, "1e0", ""))), // origin tx without contract
 		fix(CreateBatch(A, "C01-001", date(1, 1, 1), date(9999, 12, 31), true, &basetypes.OriginTx{Id: TxHash(7), Source: "polygon", Contract: Contract2, Note: strings.Repeat("n", 512)}, Iss(C, "1", "1"))),
 		fix(Msg("CreateProject(A,C01,max-lengths)", &basetypes.MsgCreateProject{Admin: A.String(), ClassId: "C01", Metadata: long, Jurisdiction: "US-WA 98225", ReferenceId: ref32})),
+		// multi-byte text at the length limits: 128 x "é" is exactly 256 bytes (admitted), 200 x "é" is 200
+		// characters but 400 bytes (not admitted by the state validators, which count bytes)
+		fix(Msg("UpdateBatchMetadata(A,b1,128xé)", &basetypes.MsgUpdateBatchMetadata{Issuer: A.String(), BatchDenom: B1, NewMetadata: strings.Repeat("é", 128)})),
+		fix(Msg("UpdateBatchMetadata(A,b1,200xé)", &basetypes.MsgUpdateBatchMetadata{Issuer: A.String(), BatchDenom: B1, NewMetadata: strings.Repeat("é", 200)})),
+		fix(Msg("UpdateProjectMetadata(A,C01-001,200xé)", &basetypes.MsgUpdateProjectMetadata{Admin: A.String(), ProjectId: "C01-001", NewMetadata: strings.Repeat("é", 200)})),
+		fix(Msg("UpdateClassMetadata(A,C01,200xé)", &basetypes.MsgUpdateClassMetadata{Admin: A.String(), ClassId: "C01", NewMetadata: strings.Repeat("é", 200)})),
+		fix(Msg("CreateProject(A,C01,metadata=200xé)", &basetypes.MsgCreateProject{Admin: A.String(), ClassId: "C01", Metadata: strings.Repeat("é", 200), Jurisdiction: "US-WA"})),
+		// one decimal place more than the credit type's precision, through the minting entry point
+		MintFresh(A, B1, B, "0.1234567", "0"),
 		fix(Msg("CreateClass(A,max-metadata)", &basetypes.MsgCreateClass{Admin: A.String(), Issuers: []string{A.String(), B.String()}, Metadata: long, CreditTypeAbbrev: "C", Fee: pcoin("uregen", 20)})),
 		lastBatch("Put(B,NCT,last-batch,1)", func(d string) *explore.Action { return Put(B, NCT, BC(d, "1")) }),
 		E{Name: "Put(B,NCT,last-batch,ALL)", Make: func(pre *chain.Snapshot) *explore.Action {
